@@ -21,6 +21,7 @@ func RefV(id string) Value { return Value{Ref: id} }
 func StrV(s string) Value  { return Value{Lit: s} }
 func IntV(i int64) Value   { return Value{Lit: i} }
 func BoolV(b bool) Value   { return Value{Lit: b} }
+func FloatV(f float64) Value { return Value{Lit: f} } // fractional values only (integers are IntV)
 
 func (v Value) IsRef() bool { return v.Ref != "" }
 
@@ -36,6 +37,8 @@ func (v Value) Key() string {
 		return fmt.Sprintf("I:%d", l)
 	case bool:
 		return fmt.Sprintf("B:%t", l)
+	case float64:
+		return fmt.Sprintf("F:%v", l)
 	}
 	return fmt.Sprintf("?:%v", v.Lit)
 }
@@ -130,6 +133,8 @@ func litJSON(v Value) any {
 	switch l := v.Lit.(type) {
 	case int64:
 		return map[string]any{"@value": json.Number(fmt.Sprintf("%d", l))}
+	case float64:
+		return map[string]any{"@value": json.Number(fmt.Sprintf("%v", l))}
 	default:
 		return map[string]any{"@value": l}
 	}
